@@ -78,6 +78,9 @@ package integrationdiagram
 //@ func MakeBuilderfromStmt
 //@   maypanic
 //@   assert @call:integrationdiagram.ProcessCalls [own-endpoint-own-statements] arg0 == appname && arg1 == epname && arg2 == endpt.GetStmt()
+// only applications the model defines become seeds (MyCallers / IndirectCalls look a seed's definition up without a nil test)
+//@   assert @setfield:F.integrationdiagram.IntsBuilder.SeedApps [only-defined-applications-become-seeds] len(stored) == 0 || app != nil
+//@   assert @setfield:F.integrationdiagram.IntsBuilder.FinalApps [only-defined-applications-are-kept] len(stored) == 0 || app != nil
 //@   ghostclear @iter:1 listed
 //@   ghostclear @iter:4 listed
 //@   ghostclear @iter:6 listed
